@@ -48,7 +48,7 @@ def finisher(rng, tag):
     return "W" + hx(b"HTTP/1.1 299 Raw\r\nContent-Length: 3\r\n\r\nraw"), "299", hx(b"raw")
 
 
-def build(rng, i, transport="u", framing=None, size=None, style=None):
+def build(rng, i, transport="u", framing=None, size=None, style=None, tiny=False):
     fr = framing or rng.choice(["cl", "cl", "chunked", "chunked", "both"])
     size = size if size is not None else rng.choice(BODY_SIZES)
     tag = "b%d" % i
@@ -56,6 +56,9 @@ def build(rng, i, transport="u", framing=None, size=None, style=None):
     r = AReq(method=rng.choice(["POST", "PUT", "PATCH"]), target="/" + tag, version="1.1", headers=[("Host", "h")], framing=fr,
              body=body, chunks=random_chunks(rng, size) if fr != "cl" else None, chunk_style=style if style is not None else rng.below(4))
     r.te_first = rng.chance(1, 2)
+    r.te_value = rng.choice(["chunked", "chunked", "Chunked", "CHUNKED", "chunKed"])
+    if tiny:
+        r.chunks = [1] * size
     reads, ckind = consumption(rng, size)
     fin, st, rb = finisher(rng, tag)
     stream = r.render()
@@ -89,6 +92,9 @@ def gen(tier, rng):
     yield build(Rng0(), 0, framing="chunked", size=5)
     for i in range(1, n):
         yield build(rng, i)
+    # thousands of tiny chunks left unread
+    for i in range(n + 200, n + 212):
+        yield build(rng, i, framing="chunked", size=rng.choice([1500, 3000, 5000]), tiny=True)
     # chunked bodies that end with a trailer section: known finding D10 (reported as KNOWN-FINDING)
     for i in range(n + 100, n + 112):
         yield build(rng, i, framing="chunked", style=4)
